@@ -313,6 +313,7 @@ class Engine(object):
     pend, self.pending = self.pending, []
     allc = z3.And([c for _, c, _ in pend]) if len(pend) > 1 else pend[0][1]
     r = self._check(z3.Not(allc))
+    self._maybe_dump(z3.Not(allc), r)
     if r == z3.unsat:
       self.stats['checks_unsat'] += len(pend)
       return
@@ -325,6 +326,23 @@ class Engine(object):
         self.failures.append(Failure(name, self.model_values(m), list(self.trace), detail=known))
       else:
         self.inconclusive.append('solver unknown on assertion %s: %s' % (name, self.s.reason_unknown()))
+
+  def _maybe_dump(self, extra, result):
+    """thorough tier: a sample of assertion queries is written out as SMT-LIB2 and re-decided by cvc5"""
+    d = DUMP_DIR
+    if not d or result not in (z3.sat, z3.unsat): return
+    self.ndump_seen = getattr(self, 'ndump_seen', 0) + 1
+    n = self.ndump_seen
+    # geometric sampling: queries 1,2,4,8,... of every job, at most 12 per job
+    if n & (n - 1) or getattr(self, 'ndumped', 0) >= 12: return
+    self.ndumped = getattr(self, 'ndumped', 0) + 1
+    try:
+      txt = self.s.to_smt2().replace('(check-sat)', '(assert %s)\n(check-sat)' % extra.sexpr())
+      name = '%s-%d-%s.smt2' % (JOBNAME.replace('/', '_').replace('#', '_'), n, 'sat' if result == z3.sat else 'unsat')
+      with open(os.path.join(d, name), 'w') as f:
+        f.write('(set-logic ALL)\n' + txt)
+    except Exception:
+      pass
 
   def model_values(self, m):
     out = {}
@@ -353,6 +371,7 @@ class Engine(object):
 
 
 ENG = None
+DUMP_DIR = os.environ.get('VERIF_DUMP_QUERIES')
 KNOWN = []
 JOBNAME = ''
 
